@@ -48,7 +48,7 @@ func c14genPlan(rt *rapid.T) c14plan {
 	for i := 0; i < n; i++ {
 		id++
 		c := rapid.IntRange(0, p.NClients-1).Draw(rt, fmt.Sprintf("c%d", i))
-		k := rapid.SampledFrom([]string{"getmsgs", "getmsgs", "biglist", "pm-victim", "pm-victim", "broadcast", "newsget", "userlist", "keepalive", "chat", "postboard", "clientinfo", "clientinfo", "invite", "fileinfo", "acct-stale-rename", "acct-create", "acct-create", "acct-delete", "invite-to-chat", "invite-to-chat", "chat-subject"}).Draw(rt, fmt.Sprintf("k%d", i))
+		k := rapid.SampledFrom([]string{"getmsgs", "getmsgs", "biglist", "pm-victim", "pm-victim", "broadcast", "newsget", "userlist", "keepalive", "chat", "postboard", "clientinfo", "clientinfo", "invite", "fileinfo", "acct-stale-rename", "acct-create", "acct-create", "acct-delete", "invite-to-chat", "invite-to-chat", "chat-subject", "unknown-chat", "unknown-chat"}).Draw(rt, fmt.Sprintf("k%d", i))
 		t := hlref.Tran{ID: id}
 		big := func(label string) []byte {
 			return bytes.Repeat([]byte{byte('A' + i%26)}, rapid.SampledFrom([]int{100, 33000, 40000, 60000}).Draw(rt, label))
@@ -84,6 +84,17 @@ func c14genPlan(rt *rapid.T) c14plan {
 			t.Type, t.Fields = hlref.TranInviteToChat, []hlref.Field{fld(hlref.FUserID, hlref.BE16((c+2)%p.NClients+1)), fld(hlref.FChatID, []byte{0, 0, 0, 0})}
 		case "chat-subject":
 			t.Type, t.Fields = hlref.TranSetChatSubject, []hlref.Field{fld(hlref.FChatID, []byte{0, 0, 0, 0}), sfld(hlref.FChatSubject, "subject")}
+		case "unknown-chat": // a request naming a chat the server does not know: the sender may be dropped, everybody else is still answered
+			switch rapid.SampledFrom([]string{"send", "subject", "leave", "join"}).Draw(rt, fmt.Sprintf("u%d", i)) {
+			case "send":
+				t.Type, t.Fields = hlref.TranChatSend, []hlref.Field{fld(hlref.FChatID, []byte{0xde, 0xad, 0xbe, 0xef}), sfld(hlref.FData, "anybody?")}
+			case "subject":
+				t.Type, t.Fields = hlref.TranSetChatSubject, []hlref.Field{fld(hlref.FChatID, []byte{0xde, 0xad, 0xbe, 0xef}), sfld(hlref.FChatSubject, "nobody home")}
+			case "leave":
+				t.Type, t.Fields = hlref.TranLeaveChat, []hlref.Field{fld(hlref.FChatID, []byte{0xde, 0xad, 0xbe, 0xef})}
+			default:
+				t.Type, t.Fields = hlref.TranJoinChat, []hlref.Field{fld(hlref.FChatID, []byte{0xde, 0xad, 0xbe, 0xef})}
+			}
 		case "keepalive":
 			t.Type = hlref.TranKeepAlive
 		case "chat":
@@ -171,7 +182,14 @@ func c14run(rt *rapid.T, p c14plan, sequential bool) (res c14result) {
 			}
 			cs = append(cs, c)
 		}
+		// one more user, whom no request of the plan addresses: it sends the requests that name an unknown chat (the server
+		// hangs up on the sender of such a request; everybody else must still be answered)
+		stranger := w.Connect("10.14.2.1:1")
+		if stranger.Login(hlsim.LoginOpts{Login: "admin", Password: "adminpw", Name: []byte("stranger"), Icon: 1}) == nil {
+			rt.Fatalf("harness: login failed")
+		}
 		settle(5 * time.Second)
+		stranger.Rest()
 		for _, c := range cs {
 			c.Rest()
 			if !sequential {
@@ -223,12 +241,17 @@ func c14run(rt *rapid.T, p c14plan, sequential bool) (res c14result) {
 			}
 			sent[r.Client][r.Tran.ID] = true
 			for i, f := range r.Tran.Fields {
-				if f.ID == hlref.FChatID {
+				if f.ID == hlref.FChatID && r.Kind != "unknown-chat" {
 					r.Tran.Fields = append([]hlref.Field{}, r.Tran.Fields...)
 					r.Tran.Fields[i] = fld(hlref.FChatID, chatID)
 				}
 			}
-			cs[r.Client].SendAsync(r.Tran.Encode())
+			if r.Kind == "unknown-chat" {
+				delete(sent[r.Client], r.Tran.ID)
+				stranger.SendAsync(r.Tran.Encode())
+			} else {
+				cs[r.Client].SendAsync(r.Tran.Encode())
+			}
 			if sequential {
 				settle(5 * time.Second)
 			}
